@@ -87,4 +87,139 @@ theorem create_skipped (z : Z) (h : z.WF) (w : Int)
   · congr 2; omega
 
 
+/-! ### the DateTime-level statements (`DTOps.create` = `DateTime.create` → `Timezone.convert` on a naive value) -/
+open Pendulum.DTOps
+
+/-- `pre` restated: a wall value that is not skipped is the rendering of `w - woff f w` for either fold -/
+theorem pre_instant (z : Z) (h : z.WF) (w : Int) (f : Bool) (hs : z.skipped w = false) :
+    (w - z.woff f w) + z.off (w - z.woff f w) = w := by
+  have := (preimage_char z.trs z.init w (w - z.woff f w) h).mpr
+    ⟨hs, by cases f <;> simp [Z.woff]⟩
+  exact this
+
+/-- **every value returned is a valid local time**: it is the table's rendering of its own instant, with the
+    offset the table assigns to that instant (it survives the round trip through UTC) -/
+theorem create_valid (z : Z) (h : z.WF) (w : Int) (fold raise : Bool) (r : V)
+    (hc : DTOps.create (.named z) w fold raise = .ok r) :
+    r.z = .named z ∧ r.instant + z.off r.instant = r.w ∧ z.off r.instant = r.offset := by
+  unfold DTOps.create at hc
+  simp only [] at hc
+  by_cases hgap : z.woff true w > z.woff false w
+  · -- skipped
+    cases raise with
+    | true => simp [convertNaive, hgap] at hc
+    | false =>
+      obtain ⟨s1, s2, s3, s4⟩ := create_skipped z h w hgap
+      cases fold with
+      | true =>
+        rw [s1] at hc; simp only [] at hc
+        split at hc
+        · injection hc with hc; subst hc
+          have hi : V.instant ⟨.named z, (fromUtc z (w - z.woff false w)).w, (fromUtc z (w - z.woff false w)).fold⟩
+              = w - z.woff false w := by
+            simp only [V.instant, V.offset, ZRef.table]; exact toUtc_fromUtc z h _
+          refine ⟨rfl, ?_, ?_⟩
+          · rw [hi]; rfl
+          · rw [hi]; simp only [V.offset, ZRef.table]
+            exact (roundtrip z.trs z.init (w - z.woff false w) h).symm
+        · cases hc
+      | false =>
+        rw [s2] at hc; simp only [] at hc
+        split at hc
+        · injection hc with hc; subst hc
+          have hi : V.instant ⟨.named z, (fromUtc z (w - z.woff true w)).w, (fromUtc z (w - z.woff true w)).fold⟩
+              = w - z.woff true w := by
+            simp only [V.instant, V.offset, ZRef.table]; exact toUtc_fromUtc z h _
+          refine ⟨rfl, ?_, ?_⟩
+          · rw [hi]; rfl
+          · rw [hi]; simp only [V.offset, ZRef.table]
+            exact (roundtrip z.trs z.init (w - z.woff true w) h).symm
+        · cases hc
+  · -- unique or repeated: the value is returned unchanged
+    have hs := not_skipped_of_le z h w hgap
+    have hconv : convertNaive z ⟨w, fold⟩ raise = .ok ⟨w, fold⟩ ∨ (∃ e, convertNaive z ⟨w, fold⟩ raise = .error e) := by
+      unfold convertNaive; simp only [hgap, if_false]
+      split
+      · right; exact ⟨_, rfl⟩
+      · left; rfl
+    rcases hconv with hk | ⟨e, he⟩
+    · rw [hk] at hc; simp only [] at hc
+      split at hc
+      · injection hc with hc; subst hc
+        have hp := pre_instant z h w fold hs
+        refine ⟨rfl, ?_, ?_⟩
+        · simpa [V.instant, V.offset, ZRef.table] using hp
+        · simp only [V.instant, V.offset, ZRef.table]
+          omega
+      · cases hc
+    · rw [he] at hc; cases e <;> simp at hc
+
+/-- a wall time that exists once is returned as is, for either fold and either raise mode -/
+theorem create_unique_dt (z : Z) (w : Int) (fold raise : Bool) (heq : z.woff true w = z.woff false w)
+    (hr : inRange w = true) : DTOps.create (.named z) w fold raise = .ok ⟨.named z, w, fold⟩ := by
+  unfold DTOps.create convertNaive
+  simp [heq, hr]
+
+/-- a repeated wall time: kept as is; `fold=1` denotes the later, `fold=0` the earlier occurrence; raising mode ⇒ AmbiguousTime -/
+theorem create_repeated_dt (z : Z) (w : Int) (fold : Bool) (hlt : z.woff false w > z.woff true w) (hr : inRange w = true) :
+    DTOps.create (.named z) w fold false = .ok ⟨.named z, w, fold⟩ ∧
+    DTOps.create (.named z) w fold true = .error .ambiguous ∧
+    (V.instant ⟨.named z, w, true⟩ > V.instant ⟨.named z, w, false⟩) := by
+  have hn : ¬ z.woff true w > z.woff false w := by omega
+  refine ⟨?_, ?_, ?_⟩
+  · unfold DTOps.create convertNaive; simp [hn, hr]
+  · unfold DTOps.create convertNaive; simp [hn, hlt]
+  · simp only [V.instant, V.offset, ZRef.table]; omega
+
+/-- a skipped wall time: moved forward by the length of the gap by default (`fold=1`), backward with `fold=0`;
+    raising mode ⇒ NonExistingTime -/
+theorem create_skipped_dt (z : Z) (h : z.WF) (w : Int) (fold : Bool) (hgt : z.woff true w > z.woff false w) (r : V)
+    (hc : DTOps.create (.named z) w fold false = .ok r) :
+    DTOps.create (.named z) w fold true = .error .nonExisting ∧
+    r.w = (if fold then w + (z.woff true w - z.woff false w) else w - (z.woff true w - z.woff false w)) ∧
+    r.instant = (if fold then w - z.woff false w else w - z.woff true w) := by
+  refine ⟨by unfold DTOps.create convertNaive; simp [hgt], ?_⟩
+  obtain ⟨s1, s2, s3, s4⟩ := create_skipped z h w hgt
+  unfold DTOps.create at hc
+  simp only [] at hc
+  cases fold with
+  | true =>
+    rw [s1] at hc; simp only [] at hc
+    split at hc
+    · injection hc with hc; subst hc
+      refine ⟨by simpa using s3, ?_⟩
+      simp only [V.instant, V.offset, ZRef.table, if_true]; exact toUtc_fromUtc z h _
+    · cases hc
+  | false =>
+    rw [s2] at hc; simp only [] at hc
+    split at hc
+    · injection hc with hc; subst hc
+      refine ⟨by simpa using s4, ?_⟩
+      simp only [V.instant, V.offset, ZRef.table, Bool.false_eq_true, if_false]; exact toUtc_fromUtc z h _
+    · cases hc
+
+/-- exceptions are raised exactly for skipped / repeated wall times, and never without the raise flag -/
+theorem raise_iff_dt (z : Z) (w : Int) (fold : Bool) :
+    (DTOps.create (.named z) w fold true = .error .nonExisting ↔ z.woff true w > z.woff false w) ∧
+    (DTOps.create (.named z) w fold true = .error .ambiguous ↔ z.woff false w > z.woff true w) ∧
+    DTOps.create (.named z) w fold false ≠ .error .nonExisting ∧
+    DTOps.create (.named z) w fold false ≠ .error .ambiguous := by
+  unfold DTOps.create convertNaive
+  by_cases c : z.woff true w > z.woff false w
+  · have c2 : ¬ z.woff false w > z.woff true w := by omega
+    refine ⟨?_, ?_, ?_, ?_⟩ <;> simp [c, c2] <;> (split <;> simp_all) <;> (split <;> simp)
+  · by_cases c2 : z.woff false w > z.woff true w
+    · refine ⟨?_, ?_, ?_, ?_⟩ <;> simp [c, c2] <;> (try split) <;> simp_all
+    · refine ⟨?_, ?_, ?_, ?_⟩ <;> simp [c, c2] <;> (try split) <;> simp_all
+
+/-- fixed offsets and naive values never raise and keep the wall time -/
+theorem create_fixed_naive (off w : Int) (fold raise : Bool) :
+    DTOps.create (.fixed off) w fold raise = .ok ⟨.fixed off, w, false⟩ ∧
+    DTOps.create .naive w fold raise = .ok ⟨.naive, w, fold⟩ := ⟨rfl, rfl⟩
+
+/-! non-vacuity: a table with a gap [4600,8200) and an overlap; a skipped and a repeated wall value -/
+example : (⟨3600, [⟨1000, 7200⟩, ⟨20000, 3600⟩]⟩ : Z).WF := by simp [Z.WF, Zone.WF, absI]
+example : (⟨3600, [⟨1000, 7200⟩, ⟨20000, 3600⟩]⟩ : Z).woff true 5000 > (⟨3600, [⟨1000, 7200⟩, ⟨20000, 3600⟩]⟩ : Z).woff false 5000 := by decide
+example : (⟨3600, [⟨1000, 7200⟩, ⟨20000, 3600⟩]⟩ : Z).woff false 24000 > (⟨3600, [⟨1000, 7200⟩, ⟨20000, 3600⟩]⟩ : Z).woff true 24000 := by decide
+
 end Pendulum.Props.C02
